@@ -45,7 +45,7 @@ def space_time(draw, lay):
 
 @st.composite
 def spec1d_case(draw, layouts=LAYOUTS, min_nf=2, max_nf=40, kinds=VALUE_KINDS,
-                allow_zero_f=True, moments="disc", max_len=4, min_len=1):
+                allow_zero_f=True, moments="disc", max_len=4, min_len=1, history=False):
     f = draw(freq_grid(min_nf, max_nf, allow_zero=allow_zero_f))
     lay = draw(layout(layouts, max_len=max_len, min_len=min_len))
     n = int(np.prod(lay["shape"])) if lay["shape"] else 1
@@ -84,13 +84,15 @@ def spec1d_case(draw, layouts=LAYOUTS, min_nf=2, max_nf=40, kinds=VALUE_KINDS,
             "a1": a1.reshape(-1).tolist(), "b1": b1.reshape(-1).tolist(),
             "a2": a2.reshape(-1).tolist(), "b2": b2.reshape(-1).tolist()}
     case.update(draw(space_time(lay)))
+    if history and draw(st.integers(0, 2)) == 0:
+        case["history"] = draw(st.sampled_from(HISTORIES))
     return case
 
 
 @st.composite
 def spec2d_case(draw, layouts=LAYOUTS, min_nf=2, max_nf=24, min_nd=8, max_nd=144,
                 uniform_only=False, allowed_nd=None, kinds=VALUE_KINDS, allow_zero_f=True,
-                max_len=3, max_cells=40000, min_len=1, relabel=False):
+                max_len=3, max_cells=40000, min_len=1, relabel=False, history=False):
     f = draw(freq_grid(min_nf, max_nf, allow_zero=allow_zero_f))
     dg = draw(dir_grid(min_nd, max_nd, uniform_only=uniform_only, allowed_n=allowed_nd, relabel=relabel))
     nf, nd = len(f), len(dg["dir"])
@@ -109,6 +111,8 @@ def spec2d_case(draw, layouts=LAYOUTS, min_nf=2, max_nf=24, min_nd=8, max_nd=144
         e[:, row, :] = 0.0
     case = {"kind": "2d", "f": f, **dg, **lay, "values": kind, "e": e.reshape(-1).tolist()}
     case.update(draw(space_time(lay)))
+    if history and draw(st.integers(0, 2)) == 0:
+        case["history"] = draw(st.sampled_from(HISTORIES))
     return case
 
 
@@ -136,8 +140,65 @@ def case_arrays(case):
     return out
 
 
+HISTORIES = ("item_assignment", "dataset_assignment")
+_TOUCH = ("e", "a1", "b1", "a2", "b2", "A1", "B1", "A2", "B2", "direction_step", "frequency_step", "wavenumber", "wavelength",
+          "group_velocity", "significant_waveheight", "mean_period", "zero_crossing_period", "depth", "saturation_spectrum",
+          "slope_spectrum", "wavenumber_density", "number_of_spectra", "variance_density")
+_TOUCH_CALLS = ("m0", "m1", "m2", "hm0", "tm01", "tm02", "peak_index", "peak_frequency", "peak_period", "peak_direction",
+                "peak_directional_spread", "mean_direction", "mean_directional_spread", "mean_a1", "mean_b1", "mean_a2",
+                "mean_b2", "peak_wavenumber", "wave_speed", "as_frequency_spectrum", "mean_direction_per_frequency",
+                "mean_spread_per_frequency")
+
+
 def build(case):
-    """Assemble the spectrum object for a case."""
+    """Assemble the spectrum object for a case. With case["history"] the object is first built with OTHER contents
+    (densities and moments reversed along frequency, other depths), every public property and bulk parameter is
+    queried once, and the contents are then replaced in place by the case's (item assignment on the object, or on its
+    dataset as the library's own operators do): the object a check sees then equals a freshly built one,
+    except for whatever the implementation remembered from the earlier queries."""
+    how = case.get("history")
+    if not how:
+        return _build_fresh(case)
+    a = case_arrays(case)
+    other = dict(case)
+    nax = 2 if case["kind"] == "2d" else 1
+    e = a["e"]
+    other["e"] = (e[:, ::-1] * 0.5 + (0.25 * np.nanmax(e) if e.size and np.isfinite(np.nanmax(e)) else 0.0)).reshape(-1).tolist()
+    if case["kind"] != "2d":
+        for m in ("a1", "b1", "a2", "b2"):
+            other[m] = (-0.5 * a[m][:, ::-1]).reshape(-1).tolist()
+    dep = a["depth"]
+    other["depth"] = np.where(np.isfinite(dep), dep * 3.0 + 1.0, 12.0).tolist()
+    spec = _build_fresh(other)
+    kfamily = ("wavenumber", "wavelength", "group_velocity", "saturation_spectrum", "slope_spectrum", "wavenumber_density",
+               "peak_wavenumber", "wave_speed")
+    zero_f = a["f"][0] == 0            # the dispersion solver prints a warning per call for f = 0
+    for name in _TOUCH:
+        if zero_f and name in kfamily:
+            continue
+        try:
+            getattr(spec, name)
+        except Exception:                                   # noqa: BLE001  (asserted elsewhere, on fresh objects)
+            pass
+    for name in _TOUCH_CALLS:
+        if zero_f and name in kfamily:
+            continue
+        try:
+            getattr(spec, name)()
+        except Exception:                                   # noqa: BLE001
+            pass
+    target = _build_fresh(case).dataset
+    names = ["variance_density", "depth"] + ([] if case["kind"] == "2d" else ["a1", "b1", "a2", "b2"])
+    for name in names:
+        var = target[name]
+        if how == "item_assignment":
+            spec[name] = (var.dims, var.values.copy())
+        else:
+            spec.dataset[name] = (var.dims, var.values.copy())
+    return spec
+
+
+def _build_fresh(case):
     from ocean_science_utilities.wavespectra.spectrum import (FrequencyDirectionSpectrum,
                                                                 FrequencySpectrum)
     a = case_arrays(case)
